@@ -758,10 +758,7 @@ fn schedules_from_bdl(bdl: &Data, id_maps: &IdMaps) -> Result<SchedulesDb, Error
             bdl::Schedule::Week(sch) => {
                 let id = id_maps.schedule_week_id(&sch.name)?;
                 let values = match sch.days.len() {
-                    1 => vec![(
-                        id_maps.schedule_day_id(sch.days.first().unwrap()).unwrap(),
-                        7,
-                    )],
+                    1 => vec![(id_maps.schedule_day_id(sch.days.first().unwrap())?, 7)],
                     7 => {
                         let mut res = vec![];
                         let mut current_day_name = sch.days.first().unwrap();
@@ -812,7 +809,9 @@ fn schedules_from_bdl(bdl: &Data, id_maps: &IdMaps) -> Result<SchedulesDb, Error
                 let values = sch
                     .weeks
                     .iter()
-                    .map(|name| id_maps.schedule_week_id(name).unwrap())
+                    .map(|name| id_maps.schedule_week_id(name))
+                    .collect::<Result<Vec<_>, _>>()?
+                    .into_iter()
                     .zip(day_count.into_iter())
                     .collect();
 
